@@ -1,7 +1,9 @@
 """C14 - performed notes sound until release or later, exactly as the pedal dictates.
 
 Bounded-exhaustive enumeration of note lists x control streams x thresholds x (ppq, mpq), of
-threshold-assignment histories, and of track layouts of multi-part performances.  The real
+threshold-assignment histories, of edit-then-query-again sequences on one part (in-place edits of the
+notes / resolution / threshold with note_array() after every step, `mc/c14_edits.py`), and of track
+layouts of multi-part performances.  The real
 `PerformedPart` / `Performance` is executed on every case and compared with the reference pedal
 model in `mc/c14_model.py` (exact `Fraction` arithmetic, written from the property statement).
 """
@@ -10,13 +12,17 @@ from itertools import combinations, product
 
 from mc.core import CaseResult, Space, run_check, guarded, innermost_partitura_frame, exc_text
 from mc import c14_model as M
+from mc import c14_edits as E
 
 PID = "C14"
 RULE = (
     "every case is one (note list, control stream, ppq/mpq, tick-key flag) or one track layout, distinct by "
     "construction (ordered products over the stated alphabets); the property is evaluated for every threshold "
     "of the case's threshold set on a freshly built part and after every assignment of a threshold walk/history; "
-    "non-trivial = at least one note and one sustain-pedal event (pedal spaces) or two parts (track space)"
+    "non-trivial = at least one note and one sustain-pedal event (pedal spaces) or two parts (track space); "
+    "note-array-edits: one case = (part configuration, prefix of editing operations), evaluated for the prefix and for "
+    "every applicable next operation, each sequence on a fresh part with note_array() before the first and after every "
+    "operation; non-trivial = at least one note and an operation that changes what the time columns have to report"
 )
 ASSUMPTIONS = [
     "note dictionaries use the key midi_pitch (the reading of every partitura loader) and controls carry number/time/value",
@@ -30,6 +36,14 @@ ASSUMPTIONS = [
     "f4 columns are compared after casting the reference to float32 (4 ulp)",
     "track renumbering: only the partition is compared (same part and same old track <=> same new track); "
     "the new numbers themselves and items without a track key are free",
+    "note-array-edits: a part edited in place (assignment to note_on/note_off/sound_off of a PerformedNote, list "
+    "operations on PerformedPart.notes, assignment of ppq/mpq) is a performed part like any other: its note array has to "
+    "report the present times; edits keep 0 <= note_on <= note_off <= sound_off; an in-place edit or helper that raises is "
+    "recorded in the outcome, not judged",
+    "note-array-edits: utils.music.remove_silence_from_performed_part is used as an editing operation only: the note and "
+    "control times it leaves in the part are read back (exactly) as the new reference state, the helper itself is not judged; "
+    "it is not applied to parts with note_on_tick/note_off_tick keys (it leaves those keys unshifted on the present tree: "
+    "reported with proposed_fixes/C14-s-remove-silence-tick-keys.diff; switch mc/c14_edits.SILENCE_WITH_TICK_KEYS)",
     "mido/numpy are trusted",
 ]
 CHUNK = 40
@@ -203,6 +217,71 @@ def na_cases(tier):
     return out
 
 
+ET4 = [F(0), F(1, 3), F(1, 2), F(2)]
+ET3 = [F(0), F(1, 2), F(2)]
+EPQ = PQ + [[1000, 1000000]]
+EPEDS = [[], [[64, "1/4", 127], [64, "5/2", 0]], [[67, "0", 127], [64, "3/4", 100]]]
+ETHR0 = [64, 0, 127]
+
+
+def edit_state0(notes, pq, thr):
+    """model state of a freshly built part (notes as [pitch, channel, on, off])"""
+    return {"notes": [{"id": "n%d" % i, "p": p, "ch": ch, "on": F(on), "off": F(off), "vel": VEL[i % 3]}
+                      for i, (p, ch, on, off) in enumerate(notes)],
+            "ppq": pq[0], "mpq": pq[1], "thr": thr}
+
+
+def edit_cases(tier):
+    """edit-then-query-again sequences on one performed part: (configuration, prefix of operations); the
+    evaluation runs the prefix and then every applicable next operation, each sequence on a fresh part, with a
+    note_array() call before the first and after every operation"""
+    thorough = tier == "thorough"
+
+    def lists(iv1, iv2):
+        nls = [[[60, 0, fs(a), fs(b)]] for a, b in iv1]
+        for pp in ((60, 60), (60, 61)):
+            for (a, b), (c, d) in product(iv2, repeat=2):
+                nls.append([[pp[0], 1, fs(a), fs(b)], [pp[1], 0, fs(c), fs(d)]])
+        return nls
+
+    def configs(nls, grid, all_pq):
+        i = 0
+        for nl in nls:
+            for cs in EPEDS:
+                for pq in (EPQ if all_pq else [None]):
+                    i += 1
+                    q = EPQ[i % 4] if pq is None else pq
+                    exact = E.grid_exact(grid, q)
+                    if all_pq:
+                        tks = (0, 1) if exact else (0,)
+                    else:
+                        tks = (1,) if exact and (i // 4) % 2 == 1 else (0,)
+                    for ticks in tks:
+                        yield {"k": "edit", "notes": nl, "ctrl": cs, "pq": q, "ticks": ticks, "thr": ETHR0[(i // 3) % 3],
+                               "grid": [fs(t) for t in grid], "pre": []}
+
+    out = []
+    # one operation: complete over the larger grid
+    for c in configs(lists(intervals(ET4), intervals(ET4)), ET4, thorough):
+        out.append(c)
+    # two operations: every ordered pair (the second one enumerated by the evaluation)
+    if thorough:
+        iv2 = [(F(0), F(2)), (F(1, 3), F(1, 2)), (F(1, 2), F(2)), (F(1, 3), F(1, 3)), (F(0), F(1, 3))]
+        cfg2 = configs(lists(intervals(ET4), iv2), ET4, False)
+        g2 = ET4
+    else:
+        iv2 = [(F(0), F(2)), (F(1, 2), F(2)), (F(1, 2), F(1, 2))]
+        cfg2 = configs(lists(iv2, iv2), ET3, False)
+        g2 = ET3
+    for c in cfg2:
+        st0 = edit_state0(c["notes"], c["pq"], c["thr"])
+        for op in E.ops_for(st0, g2, c["ticks"]):
+            d = dict(c)
+            d["pre"] = [op]
+            out.append(d)
+    return out
+
+
 def spaces(tier, seed):
     sp = []
     thorough = tier == "thorough"
@@ -263,6 +342,21 @@ def spaces(tier, seed):
         "; 3 control streams (none / extending pedal / other controller + never lifted pedal); every (ppq,mpq) of "
         "{(480,500000),(96,600000),(7,2000000),(1000,1000000)}" + (" + {(480,451128),(384,500000)}" if thorough else "") +
         "; with and without note_on_tick/note_off_tick keys; thresholds {0,64,127}"))
+    sp.append(Space(
+        "note-array-edits", edit_cases(tier), True,
+        "edit-then-query-again sequences on ONE performed part: note_array() on the fresh part, then after every "
+        "operation; operation alphabet = in-place assignment of every other interval of the grid to a note "
+        "(note_on/note_off/sound_off; onset only, release only or both), replacing a list item by a new PerformedNote "
+        "(2 intervals), appending a note, deleting a note, notes.reverse(), assigning a rotated new list, "
+        "utils.music.remove_silence_from_performed_part, assigning another threshold of {0,64,127} (sounding ends "
+        "compared with the pedal model on the edited notes), assigning another ppq / mpq. "
+        "(a) every single operation on every part of 1-2 notes (pitch patterns 60 / 60,60 / 60,61) with on<=off over "
+        "{0,1/3,1/2,2} x 3 control streams (none / extending pedal / other controller + never lifted pedal)" +
+        (" x every (ppq,mpq) of 4 x with/without tick keys" if thorough else "; (ppq,mpq) of 4, tick keys and the initial threshold cycled") +
+        "; (b) every ordered pair of operations on parts of 1-2 notes over " +
+        ("10 (one note) / 5 (two notes) intervals of {0,1/3,1/2,2}" if thorough else "the intervals {(0,2),(1/2,2),(1/2,1/2)}, operations over the grid {0,1/2,2}") +
+        " x the 3 control streams ((ppq,mpq), tick keys, initial threshold cycled). Parts with note_on_tick/"
+        "note_off_tick keys (kept consistent by the edits) get no remove_silence and no ppq/mpq operation"))
     nls, css = hist_configs(tier)
     inits = T5 if thorough else [64, 0, 127]
     sp.append(Space(
@@ -347,8 +441,11 @@ def close32(a, b):
     return abs(float(np.float32(a)) - float(b32)) <= 4 * float(np.spacing(np.abs(b32))) + 1e-30
 
 
-def check_note_array(res, pp, notes, pq, ctx, rebuild=True):
+def check_note_array(res, pp, notes, pq, ctx, rebuild=True, vels=None):
     from partitura.performance import PerformedPart
+
+    if vels is None:
+        vels = [VEL[i % 3] for i in range(len(notes))]
 
     ppq, mpq = pq
     ok, na = guarded(res, "note-array-never-fails", pp.note_array)
@@ -385,7 +482,7 @@ def check_note_array(res, pp, notes, pq, ctx, rebuild=True):
     ops += 1
     if not ok:
         return ops
-    exp = sorted((p, VEL[i % 3], f32(float(on)), f32(so[i])) for i, (p, ch, on, off) in enumerate(notes))
+    exp = sorted((p, vels[i], f32(float(on)), f32(so[i])) for i, (p, ch, on, off) in enumerate(notes))
     try:
         got = sorted((int(n.get("midi_pitch", n["pitch"])), int(n["velocity"]), float(n["note_on"]), float(n["sound_off"]))
                      for n in pp2.notes)
@@ -688,8 +785,134 @@ def eval_tracks(case):
     return res
 
 
+def edit_apply(pp, op, st, ticks):
+    """apply one editing operation to the real part (st = model state before the operation)"""
+    from partitura.performance import PerformedNote
+
+    ppq, mpq = st["ppq"], st["mpq"]
+
+    def tk(t):
+        return int(F(t) * 1000000 * ppq / mpq)
+
+    def new_note(nid, ch, on, off):
+        d = dict(id=nid, midi_pitch=E.NEW_PITCH, note_on=float(F(on)), note_off=float(F(off)), velocity=E.NEW_VEL,
+                 channel=ch, track=0)
+        if ticks:
+            d["note_on_tick"] = tk(on)
+            d["note_off_tick"] = tk(off)
+        return PerformedNote(d)
+
+    k = op[0]
+    if k == "set":
+        n = pp.notes[op[1]]
+        n["note_on"] = float(F(op[2]))
+        n["note_off"] = float(F(op[3]))
+        n["sound_off"] = float(F(op[3]))
+        if ticks:
+            n["note_on_tick"] = tk(op[2])
+            n["note_off_tick"] = tk(op[3])
+    elif k == "replace":
+        pp.notes[op[1]] = new_note(E.fresh_id(st), st["notes"][op[1]]["ch"], op[2], op[3])
+    elif k == "append":
+        pp.notes.append(new_note(E.fresh_id(st), 0, op[1], op[2]))
+    elif k == "delete":
+        del pp.notes[op[1]]
+    elif k == "reverse":
+        pp.notes.reverse()
+    elif k == "rotate":
+        pp.notes = pp.notes[1:] + pp.notes[:1]
+    elif k == "silence":
+        from partitura.utils.music import remove_silence_from_performed_part
+
+        remove_silence_from_performed_part(pp)
+    elif k == "thr":
+        pp.sustain_pedal_threshold = op[1]
+    elif k == "ppq":
+        pp.ppq = op[1]
+    elif k == "mpq":
+        pp.mpq = op[1]
+    else:
+        raise ValueError(op)
+
+
+def eval_edit(case):
+    notes, ctrl, ped0 = parse(case)
+    grid = [F(t) for t in case["grid"]]
+    ticks = case["ticks"]
+    pq = case["pq"]
+    res = CaseResult(states=0, transitions=0, traces=0)
+    st0 = edit_state0(notes, pq, case["thr"])
+    flags = {"raised": 0, "moved": 0}
+
+    def query(pp, st, ctx, last):
+        n4 = [(n["p"], n["ch"], n["on"], n["off"]) for n in st["notes"]]
+        res.states += 1
+        res.transitions += check_note_array(res, pp, n4, (st["ppq"], st["mpq"]), ctx, rebuild=last,
+                                            vels=[n["vel"] for n in st["notes"]])
+
+    def run(seq):
+        """the sequence on a fresh part; returns the model state after it, None after a violation / unjudged stop"""
+        nv = len(res.violations)
+        ok, pp = guarded(res, "construction-never-fails", build_part, notes, ctrl, case["thr"], pq, ticks)
+        res.transitions += 1
+        res.traces += 1
+        if not ok:
+            return None
+        st = st0
+        ped = ped0
+        query(pp, st, "fresh part, before %r" % (seq,), not seq)
+        for j, op in enumerate(seq):
+            if len(res.violations) > nv:
+                return None
+            ctx = "fresh part + note_array() + %s (note_array() after every operation)" % " + ".join(repr(o) for o in seq[:j + 1])
+            res.transitions += 1
+            try:
+                edit_apply(pp, op, st, ticks)
+            except Exception as e:  # noqa
+                if op[0] == "thr":
+                    res.fail("assignment-never-fails", kind="exception", where=innermost_partitura_frame(e), observed=exc_text(e), detail=ctx)
+                elif op[0] in ("replace", "append"):
+                    res.fail("construction-never-fails", kind="exception", where=innermost_partitura_frame(e), observed=exc_text(e), detail=ctx)
+                else:
+                    flags["raised"] += 1  # in-place edits / helpers are not judged by this property
+                return None
+            st = E.apply_model(st, op)
+            if op[0] == "silence":
+                # the helper is an editing operation here: the times it leaves in the part are read back
+                for m, n in zip(st["notes"], pp.notes):
+                    m["on"] = F(float(n["note_on"]))
+                    m["off"] = F(float(n["note_off"]))
+                ped = [(F(float(c["time"])), int(c["value"])) for c in pp.controls if c["number"] == 64]
+            if op[0] == "thr":
+                n4 = [(n["p"], n["ch"], n["on"], n["off"]) for n in st["notes"]]
+                ref = M.ref_sound([(n["p"], n["on"], n["off"]) for n in st["notes"]], ped, op[1])
+                if pp.sustain_pedal_threshold != op[1]:
+                    res.fail("threshold-stored", expected=op[1], observed=pp.sustain_pedal_threshold, where="sustain_pedal_threshold", detail=ctx)
+                check_sound(res, n4, sound_offs(pp), ref, ctx)
+            query(pp, st, ctx, j == len(seq) - 1)
+        if len(res.violations) > nv:
+            return None
+        return st
+
+    pre = case["pre"]
+    st = run(pre)
+    nseq = 0
+    if st is not None:
+        for op in E.ops_for(st, grid, ticks):
+            nseq += 1
+            if E.changes_times(op):
+                flags["moved"] += 1
+            if run(pre + [op]) is None and res.violations:
+                break
+    res.nontrivial = flags["moved"] > 0 and bool(st0["notes"])
+    res.outcome = "edit d%d n%d%s%s" % (len(pre) + 1, len(notes), " pedal" if ped0 else "", " edit-raised" if flags["raised"] else "")
+    return res
+
+
 def eval_case(case):
     k = case["k"]
+    if k == "edit":
+        return eval_edit(case)
     if k == "pedal":
         return eval_pedal(case)
     if k == "tv":
